@@ -1543,6 +1543,10 @@ func (g *G) funcDef() ts.Stmt {
 	g.blockIDs = []int{0}
 	g.push()
 	np := g.pick("nparams", 25, 30, 25, 15, 5)
+	if g.chance("many-params", 4) {
+		np = g.intn("nparams-many", 10, 12) // two-digit positional parameters
+		g.tag("ten-or-more-params")
+	}
 	for i := 0; i < np; i++ {
 		pn := g.freshName()
 		pt := g.anyType("param-type")
